@@ -280,6 +280,9 @@ def concrete(si, ti, vals):
 
 
 def replay(data):
+    if isinstance(data, dict) and 'history' in data:
+        from . import histcheck
+        return histcheck.replay('C11', data)
     if isinstance(data, dict) and data.get('kind') == 'authoropts':
         from . import authoropts
         return authoropts.replay(data)
@@ -400,4 +403,6 @@ def check(rep):
     # the per-author settings as a source of these bypasses (real loader + accessors)
     from . import authoropts
     authoropts.check(rep, 'C11', ['bypass_jira_check'])
-
+    # the gate along histories: complete jobs, the ticket edited between evaluations (DESIGN 11)
+    from . import histcheck
+    histcheck.check(rep, 'C11')
